@@ -24,6 +24,8 @@ THEOREMS = {
                             "MsPack.TableObligations.zip_lit_extrabits", "MsPack.TableObligations.zip_dist_offsets",
                             "MsPack.TableObligations.zip_dist_extrabits", "MsPack.TableObligations.zip_bitlen_order",
                             "MsPack.TableObligations.lsb_bit_mask", "MsPack.TableObligations.cab_layout"],
+            "Proofs.Props.C01Lzx": ["MsPack.Lzx.C01_lzx_uncompressed_roundtrip", "MsPack.Lzx.C01_lzx_uncompressed_roundtrip_src", "MsPack.Lzx.C01_lzx_uncompressed_roundtrip_calls",
+                                    "MsPack.Lzx.init_some"],
             "Proofs.Props.C01Mszip": ["MsPack.Zip.C01_mszip_stored_roundtrip", "MsPack.Zip.C01_mszip_fixed_roundtrip", "MsPack.Zip.C01_mszip_blocks_roundtrip",
                                       "MsPack.Zip.C01_mszip_blocks_roundtrip_src", "MsPack.Zip.C01_mszip_blocks_roundtrip_chunked"]
 }
